@@ -210,6 +210,7 @@ func truthOf(pcaps map[string]*pcapDef, processed []string, newOnes map[string]b
 // separated by blanks, each optionally negated with '-':
 //
 //	sport:N cport:N cbytes:N: sbytes:N: cdata:lit sdata:lit id:a,b,c tag:x service:x mark:x generated:x
+//
 // A definition may also carry ONE sub-query named s:  atoms written `@s:<atom>` (optionally negated)
 // constrain another stream, `cbytes:@s:cbytes@` / `sbytes:@s:sbytes@` / `cport:@s:cport@` relate this
 // stream to it: the definition holds for a stream iff its own atoms hold and SOME existing stream (possibly
@@ -421,31 +422,32 @@ type viewRec struct {
 }
 
 type harness struct {
-	base    string
-	mgr     *manager.Manager
-	g       *gates
-	pcaps   map[string]*pcapDef
-	queued  []string // captures handed to ImportPcaps, not yet processed
-	done    []string // processed captures
-	tagDefs map[string]string
-	ords    map[string]int // index file name -> ordinal
-	views   map[int]*viewRec
-	imported map[string]bool
-	prev    manager.VerifState
-	oracle  *bufio.Writer
-	lineNo  int
-	tagSnapU []uint              // Uncertain of the tag the running tagging job works on, at job start
-	jobHolds map[string][]string // index files each running job holds
+	base         string
+	mgr          *manager.Manager
+	g            *gates
+	pcaps        map[string]*pcapDef
+	queued       []string // captures handed to ImportPcaps, not yet processed
+	done         []string // processed captures
+	tagDefs      map[string]string
+	ords         map[string]int // index file name -> ordinal
+	views        map[int]*viewRec
+	imported     map[string]bool
+	prev         manager.VerifState
+	oracle       *bufio.Writer
+	lineNo       int
+	tagSnapU     []uint              // Uncertain of the tag the running tagging job works on, at job start
+	jobHolds     map[string][]string // index files each running job holds
 	pendingTruth map[int]*flowTruth
 	importBatch  []string
 	world        map[uint64]*flowTruth // every existing stream (for definitions with a sub-query)
 	// the state file that the most recent state save replaced (and removed), and the scenario line of that save
-	removedState *stateFileCopy
-	removedAt    int
-	convInFlight bool // a converter job is in flight: what it cached is not "current data" for the tags yet
-	detached     map[string]bool // converter -> detached from its last tag and not attached (or used on demand) since
-	convHeld     bool            // conversions are held in flight (op `convhold on`): the converter job cannot reach its gate
-	heldJob      bool            // a hold was on at some time while the converter job now in flight was running
+	removedState  *stateFileCopy
+	removedAt     int
+	convInFlight  bool            // a converter job is in flight: what it cached is not "current data" for the tags yet
+	detached      map[string]bool // converter -> detached from its last tag and not attached (or used on demand) since
+	convHeld      bool            // conversions are held in flight (op `convhold on`): the converter job cannot reach its gate
+	heldJob       bool            // a hold was on at some time while the converter job now in flight was running
+	detachedInJob map[string]bool // converter -> it was detached from its last tag while a converter job was in flight
 }
 
 type stateFileCopy struct {
@@ -546,17 +548,17 @@ func u642i(xs []uint64) []int {
 }
 
 type stTag struct {
-	Name   string   `json:"name"`
-	Def    string   `json:"def"`
-	Color  string   `json:"color"`
-	M      []int    `json:"m"`
-	U      []int    `json:"u"`
-	Conv   []string `json:"conv"`
-	RefBy  []string `json:"refby"`
-	Main   []string `json:"main"`
-	Sub    []string `json:"sub"`
-	MFeat  int      `json:"mfeat"`
-	SFeat  int      `json:"sfeat"`
+	Name  string   `json:"name"`
+	Def   string   `json:"def"`
+	Color string   `json:"color"`
+	M     []int    `json:"m"`
+	U     []int    `json:"u"`
+	Conv  []string `json:"conv"`
+	RefBy []string `json:"refby"`
+	Main  []string `json:"main"`
+	Sub   []string `json:"sub"`
+	MFeat int      `json:"mfeat"`
+	SFeat int      `json:"sfeat"`
 }
 type stFile struct {
 	Ord int   `json:"ord"`
@@ -1077,13 +1079,13 @@ func (h *harness) checkOracles(st manager.VerifState) {
 // ---------------------------------------------------------------------------------------------
 
 type parseFacts struct {
-	Err      bool     `json:"err"`      // query.Parse failed / rejected before reaching the service loop
-	Main     []string `json:"main"`     // Features().MainTags  (full tag names)
-	Sub      []string `json:"sub"`      // Features().SubQueryTags
-	MFeat    int      `json:"mfeat"`
-	SFeat    int      `json:"sfeat"`
-	IDsOK    bool     `json:"idsok"`    // Conditions.StreamIDs ok (mark-shaped definition)
-	IDs      []int    `json:"ids"`      // the ids of a mark-shaped definition below the current next stream id
+	Err   bool     `json:"err"`  // query.Parse failed / rejected before reaching the service loop
+	Main  []string `json:"main"` // Features().MainTags  (full tag names)
+	Sub   []string `json:"sub"`  // Features().SubQueryTags
+	MFeat int      `json:"mfeat"`
+	SFeat int      `json:"sfeat"`
+	IDsOK bool     `json:"idsok"` // Conditions.StreamIDs ok (mark-shaped definition)
+	IDs   []int    `json:"ids"`   // the ids of a mark-shaped definition below the current next stream id
 }
 
 func (h *harness) facts(def string, next uint64) parseFacts {
@@ -1551,8 +1553,19 @@ func (h *harness) step(line string) (event, error) {
 			}
 			if was && !is {
 				h.detached[cn] = true
+				// conversions of a converter job that is in flight at this moment are not FURTHER runs: what that job
+				// still stores is not judged
+				if before.Convert {
+					if h.detachedInJob == nil {
+						h.detachedInJob = map[string]bool{}
+					}
+					h.detachedInJob[cn] = true
+				}
 			}
-			if !h.detached[cn] {
+			if !st.Convert && !before.Convert {
+				delete(h.detachedInJob, cn)
+			}
+			if !h.detached[cn] || h.detachedInJob[cn] {
 				continue
 			}
 			had := map[uint64]bool{}
